@@ -117,8 +117,89 @@ fn serve(xorbs: Arc<Vec<Xorb>>) -> (String, std::sync::mpsc::Receiver<String>, A
     (addr, rx, stop)
 }
 
+// `HUGE <nterms> <nchunks> <chunk_len> <seq|par>`: a whole-file download of nterms terms that each cover all chunks of one
+// xorb (term length nchunks * chunk_len < 2^32, file length beyond 2^32).  Nothing of file size is held in memory: the
+// output file is compared block by block with the term data.
+fn run_huge(op: &[&str]) -> Lines {
+    use std::io::Read;
+    let nterms: usize = op[1].parse().unwrap();
+    let nchunks: usize = op[2].parse().unwrap();
+    let clen: usize = op[3].parse().unwrap();
+    let par = op[4] == "par";
+    let mut out: Lines = vec![];
+    let mut why: Vec<String> = vec![];
+    let xorbs = Arc::new(vec![build_xorb(0, &vec![clen; nchunks])]);
+    let (addr, _reqlog, stop) = serve(xorbs.clone());
+    let term: Vec<u8> = (0..nchunks).flat_map(|i| chunk(0, i, clen)).collect();
+    let total = term.len() as u64 * nterms as u64;
+    let terms: Vec<CASReconstructionTerm> = (0..nterms)
+        .map(|_| CASReconstructionTerm { hash: HexMerkleHash::from(xorbs[0].hash), unpacked_length: term.len() as u32, range: ChunkRange { start: 0, end: nchunks as u32 } })
+        .collect();
+    let mut fi: HashMap<HexMerkleHash, Vec<CASReconstructionFetchInfo>> = HashMap::new();
+    fi.entry(HexMerkleHash::from(xorbs[0].hash)).or_default().push(CASReconstructionFetchInfo {
+        range: ChunkRange { start: 0, end: nchunks as u32 },
+        url: format!("{}/x/0/0-{}", addr, nchunks),
+        url_range: HttpRange { start: 0, end: (xorbs[0].blob.len() - 1) as u32 },
+    });
+    let fi = Arc::new(fi);
+    let tmp = tempfile::tempdir().unwrap();
+    let tp = Arc::new(ThreadPool::new().unwrap());
+    let client = Arc::new(RemoteClient::new(tp.clone(), &addr, None, &None, &None, tmp.path().join("shards"), false));
+    let path = tmp.path().join("out_huge");
+    let provider = OutputProvider::File(FileProvider::new(path.clone()));
+    let res = tp
+        .external_run_async_task(async move {
+            if par {
+                client.reconstruct_file_to_writer_parallel(terms, fi, 0, None, &provider, None).await
+            } else {
+                client.reconstruct_file_to_writer(terms, fi, 0, None, &provider, None).await
+            }
+        });
+    let flen = std::fs::metadata(&path).map(|m| m.len()).unwrap_or(0);
+    match res {
+        Ok(Ok(n)) => {
+            out.push(("obs", format!("HUGE len={} file={}", n, flen)));
+            if n != total {
+                why.push(format!("[C17] whole-file download of {} terms of {} bytes ({} writer): reported length {} instead of {}", nterms, term.len(), op[4], n, total));
+            }
+            if flen != total {
+                why.push(format!("[C17] whole-file download of {} terms of {} bytes ({} writer): the output file has {} bytes instead of {}", nterms, term.len(), op[4], flen, total));
+            }
+            if let Ok(mut f) = std::fs::File::open(&path) {
+                let mut buf = vec![0u8; term.len()];
+                for t in 0..nterms {
+                    if f.read_exact(&mut buf).is_err() || buf != term {
+                        why.push(format!("[C17] whole-file download ({} writer): the output differs from the term data in term {} (file offset {})", op[4], t, t as u64 * term.len() as u64));
+                        break;
+                    }
+                }
+            }
+        },
+        Ok(Err(e)) => {
+            out.push(("obs", "HUGE err".into()));
+            why.push(format!("[C17] whole-file download of {} bytes ({} writer) failed: {:?}", total, op[4], e));
+        },
+        Err(e) => {
+            out.push(("obs", "HUGE died".into()));
+            why.push(format!("[C17] whole-file download of {} bytes ({} writer): the download task died: {:?}", total, op[4], e));
+        },
+    }
+    stop.store(true, std::sync::atomic::Ordering::SeqCst);
+    if why.is_empty() {
+        out.push(("orc", "ok".into()));
+    } else {
+        for w in why {
+            out.push(("orc", format!("FAIL {}", w)));
+        }
+    }
+    out
+}
+
 pub fn run(toks: &[&str]) -> Lines {
     let ops = crate::shard::split_ops(toks);
+    if let Some(op) = ops.iter().find(|o| o[0] == "HUGE") {
+        return run_huge(op);
+    }
     let mut out: Lines = vec![];
     let mut why: Vec<String> = vec![];
     let mut xorbs: Vec<Xorb> = vec![];
